@@ -142,14 +142,50 @@ section FiltersThm
 
 variable {A Sel : Type} [DecidableEq A] [DecidableEq Sel]
 
-/-- **filters_as_foundry_contracts**: for every address other than the test contract, being resolved as a target is the Foundry rule -/
-theorem filters_as_foundry_contracts (f : Filters A Sel) (deployed : List A) (test a : A) (ha : a ≠ test) :
+omit [DecidableEq Sel] in
+/-- with non-empty selector entries, "is a key of the decoded dict" and "has targeted selectors" coincide -/
+theorem keys_iff_sels (m : List (A × List Sel)) (a : A) (hne : ∀ e ∈ m, e.2 ≠ []) :
+    a ∈ keysOf m ↔ selsOf m a ≠ [] := by
+  unfold keysOf selsOf
+  rw [List.mem_map, Ne, List.flatMap_eq_nil_iff]
+  constructor
+  · rintro ⟨e, he, rfl⟩ h
+    exact hne e he (h e (List.mem_filter.mpr ⟨he, by simp⟩))
+  · intro h
+    have : ∃ x ∈ m.filter (fun e => e.1 == a), x.2 ≠ [] := by
+      apply Classical.byContradiction
+      intro hc
+      apply h
+      intro x hx
+      apply Classical.byContradiction
+      intro hx2
+      exact hc ⟨x, hx, hx2⟩
+    obtain ⟨x, hx, _⟩ := this
+    rw [List.mem_filter] at hx
+    exact ⟨x, hx.1, by simpa using hx.2⟩
+
+/-- **filters_as_foundry_contracts**: for every address other than the test contract, being resolved as a target is the Foundry
+rule — provided no targetSelectors entry has an empty selector list (Foundry skips such an entry, the code keeps its key:
+`filters_empty_selector_entry_cex`) -/
+theorem filters_as_foundry_contracts (f : Filters A Sel) (deployed : List A) (test a : A) (ha : a ≠ test)
+    (hne : ∀ e ∈ f.targetSelectors, e.2 ≠ []) :
     a ∈ resolveContracts f deployed test ↔ specTargeted f deployed a = true := by
+  have key := keys_iff_sels f.targetSelectors a hne
   by_cases hE : f.targetContracts = [] <;>
   by_cases hT : (test ∈ f.targetContracts ∨ ¬ selsOf f.targetSelectors test = []) <;>
   by_cases h1 : a ∈ deployed <;> by_cases h2 : a ∈ f.targetContracts <;>
   by_cases h3 : a ∈ f.excludeContracts <;> by_cases h4 : a ∈ keysOf f.targetSelectors <;>
   simp_all [resolveContracts, specTargeted, List.mem_filter]
+
+/-- the corner left out above: an excluded contract named by an entry with an empty selector list is resolved as a target by the
+code but is not a target by the Foundry rule -/
+theorem filters_empty_selector_entry_cex :
+    ¬ (∀ (f : Filters Nat Nat) (deployed : List Nat) (test a : Nat), a ≠ test →
+        (a ∈ resolveContracts f deployed test ↔ specTargeted f deployed a = true)) := by
+  intro h
+  have := h ⟨[], [2], [(2, [])], [], [], []⟩ [1, 2, 9] 9 2 (by decide)
+  revert this
+  decide
 
 /-- **filters_as_foundry_selectors** -/
 theorem filters_as_foundry_selectors (f : Filters A Sel) (a : A) (isTest : Bool) (fns : List (FnInfo Sel)) (g : FnInfo Sel) :
@@ -178,7 +214,7 @@ theorem filters_as_foundry_senders (f : Filters A Sel) (s : A) : senderAllowed f
 resolved as a target by the code (the key of the dict exists) -/
 example :
     let f : Filters Nat Nat := ⟨[], [2], [(2, [7])], [], [], []⟩
-    resolveContracts f [1, 2, 9] 9 = [1, 2] ∧ specTargeted f [1, 2, 9] 2 = true := by decide
+    resolveContracts f [1, 2, 9] 9 = [1, 2] ∧ specTargeted f [1, 2, 9] 2 = true ∧ (∀ e ∈ f.targetSelectors, e.2 ≠ []) := by decide
 
 example :
     let f : Filters Nat Nat := ⟨[], [2], [(2, [])], [], [], []⟩
